@@ -217,3 +217,5 @@ def run(ctx):
         if not _direct.close(got, want, scale=float(np.sum(Xn ** 2)) + 1):
             ctx.violation(f"the saving used by MVCAPA(collective_saving=L2Cost({mu.tolist()})) on [{s0},{e0}) is {got.tolist()}, the definition gives {np.asarray(want).tolist()}",
                           {"X": Xn.tolist(), "mean": mu.tolist()}, {"what": "to_saving-values"})
+    from harness import helpers as _helpers
+    _helpers.capa_helpers(ctx)
